@@ -58,13 +58,13 @@ func zzMachineryValue(field string) any {
 // and its XR.
 //
 //gosym:harness
-//gosym:cover bound-existing created-new reserved-label manual automatic manual-pin manual-pin-first-sync policy-edited
+//gosym:cover bound-existing created-new reserved-label manual automatic manual-pin manual-pin-first-sync policy-edited xr-only-field
 func HarnessC07SyncSSA() { zzC07Sync(true) }
 
 // HarnessC07SyncCSA: the same for the client-side (merge based) syncer.
 //
 //gosym:harness
-//gosym:cover bound-existing created-new reserved-label manual automatic claim-without-status manual-pin manual-pin-first-sync policy-edited
+//gosym:cover bound-existing created-new reserved-label manual automatic claim-without-status manual-pin manual-pin-first-sync policy-edited xr-only-field
 func HarnessC07SyncCSA() { zzC07Sync(false) }
 
 func zzC07Sync(ssa bool) {
@@ -80,6 +80,8 @@ func zzC07Sync(ssa bool) {
 	k0, k1 := zz.Str("claim.spec.key0"), zz.Str("claim.spec.key1")
 	zz.Assume(k0 != k1)
 	zzNotIn(k0, zzClaimMachine, zzXRMachine)
+	zz.Assume(k0 != "xrOnlyUserField")
+	zz.Assume(k1 != "xrOnlyUserField")
 	zzNotIn(k1, zzClaimMachine, zzXRMachine)
 	// a nested user object whose inner key may collide with a machinery name
 	inner := zz.Str("claim.spec.nested.key")
@@ -152,6 +154,7 @@ func zzC07Sync(ssa bool) {
 	zzNotIn(us0, zzStatusMachine)
 	xrHasCompRef := zz.Bool("xr.compositionRef")
 	xrHasRevRef := zz.Bool("xr.compositionRevisionRef")
+	xrOnlyField := xrExists && zz.Bool("xr.spec.fieldTheClaimLacks")
 	if xrExists {
 		zz.Cover("bound-existing")
 		xr.SetName("xr-bound")
@@ -160,6 +163,11 @@ func zzC07Sync(ssa bool) {
 			"resourceRefs":               []any{map[string]any{"apiVersion": "example.org/v1", "kind": "Composed", "name": "cd-1"}},
 			"writeConnectionSecretToRef": map[string]any{"name": "xr-secret", "namespace": "crossplane-system"},
 			"claimRef":                   map[string]any{"apiVersion": "example.org/v1", "kind": "Claim", "name": "cm", "namespace": "team"},
+		}
+		// a user-defined field the claim no longer has (removed from the claim
+		// since the last sync), or that something else wrote to the XR
+		if xrOnlyField {
+			xspec["xrOnlyUserField"] = "left-over"
 		}
 		if xrHasCompRef {
 			xspec["compositionRef"] = map[string]any{"name": "comp-from-xr"}
@@ -330,4 +338,11 @@ func zzC07Sync(ssa bool) {
 	rr, _ := cspec["resourceRef"].(map[string]any)
 	zz.Assert("claim-references-the-xr", rr != nil && rr["name"] == any(xrName))
 	zz.Observe("synced", xrExists, hasSelection)
+	// last, because the client-side syncer is known to fail it (known_findings.txt):
+	// a user-defined spec field only the XR has must not reach the claim
+	if xrOnlyField {
+		zz.Cover("xr-only-field")
+		_, in := cspec["xrOnlyUserField"]
+		zz.Assert("xr-user-spec-field-does-not-reach-the-claim", !in)
+	}
 }
